@@ -245,7 +245,7 @@ func runC20(r *an.Run) {
 		})
 
 	r.Obl("channel-update-admission", "GUARD",
-		"handleChanUpdate reaches Graph.UpdateEdge only below !IsStaleEdgePolicy(graphScid, timestamp, flags) and a successful ValidateChannelUpdateAnn(pubKey, chanInfo.Capacity, upd), where pubKey is chanInfo.NodeKey1() for direction 0 and NodeKey2() for direction 1; the update is relayed only after UpdateEdge succeeded; Builder.updateEdge writes the policy only for an existing channel and only when the timestamp stored for that same direction is before the new one; IsStaleEdgePolicy compares with the same direction's timestamp; both stores report the two directions' timestamps in (node1, node2) order",
+		"handleChanUpdate reaches Graph.UpdateEdge only below !IsStaleEdgePolicy(graphScid, timestamp, flags) and a successful ValidateChannelUpdateAnn(pubKey, chanInfo.Capacity, upd), where pubKey is chanInfo.NodeKey1() for direction 0 and NodeKey2() for direction 1; the update is relayed only after UpdateEdge succeeded; Builder.updateEdge writes the policy only for an existing channel and only when the timestamp stored for that same direction is before the new one; IsStaleEdgePolicy compares with the same direction's timestamp; both stores report the two directions' timestamps in (node1, node2) order; every function of discovery and graph that writes a policy through UpdateEdge first passes ValidateChannelUpdateAnn against the stored channel's capacity; makeZombiePubkeys keeps node 1's key only in slot 1 and node 2's key only in slot 2, and processZombieUpdate marks the edge live only after the signature verified under the key of the update's own direction",
 		"an update accepted from the wrong side, or not strictly newer, lets a peer (or a replay) overwrite the channel's forwarding policy", 18,
 		func(o *an.Obl) {
 			f := p.Func(gs + "handleChanUpdate")
@@ -284,6 +284,78 @@ func runC20(r *an.Run) {
 				if an.Text(c.Args[0]) != "graphScid" || an.Text(c.Args[1]) != "timestamp" || an.Text(c.Args[2]) != "upd.ChannelFlags" {
 					o.FailAt(f.ID+"#stale-args", s.Where(), "IsStaleEdgePolicy(%s, %s, %s)", an.Text(c.Args[0]), an.Text(c.Args[1]), an.Text(c.Args[2]))
 				}
+			}
+			// every writer of a channel policy in discovery/graph validates the
+			// whole update (fields and signature), not the signature alone
+			nW := 0
+			for _, fn := range p.Funcs(false, "discovery", "graph") {
+				if fn.Lit != nil || fn.ID == "graph.Builder.UpdateEdge" {
+					continue
+				}
+				ws := fn.Calls(func(id string, c *ast.CallExpr) bool {
+					return strings.HasSuffix(id, ".UpdateEdge") && !strings.Contains(id, "graph/db")
+				}, true)
+				if len(ws) == 0 {
+					continue
+				}
+				nW += len(ws)
+				vs := fn.Calls(an.CalleeIs("netann.ValidateChannelUpdateAnn"), false)
+				o.Site("%s writes a policy at %d sites, %d full validations", fn.ID, len(ws), len(vs))
+				mustPass(o, fn, "ValidateChannelUpdateAnn", vs, an.OkErrNil, ws)
+				for _, v := range vs {
+					a := fn.ArgCanon(v)
+					o.Site("%s ValidateChannelUpdateAnn(%s, %s, %s)", fn.ID, a[0], a[1], a[2])
+					if !strings.HasSuffix(a[1], ".Capacity") {
+						o.FailAt(fn.ID+"#validate-capacity", v.Where(), "the update is validated against capacity %s, expected the stored channel's Capacity", a[1])
+					}
+				}
+			}
+			if nW < 3 {
+				o.FailAt("UpdateEdge#writers", "", "expected at least 3 policy writers (gossip, onion failure, own update), found %d", nW)
+			}
+			// zombie resurrection: the key kept for a direction is that
+			// node's key, and the key checked is the one of the update's direction
+			mz := p.Func("graph/db.makeZombiePubkeys")
+			for _, s := range mz.Returns() {
+				rs := s.Node.(*ast.ReturnStmt)
+				a, b := mz.Canon(rs.Results[0]), mz.Canon(rs.Results[1])
+				o.Site("makeZombiePubkeys returns (%s, %s)", a, b)
+				if a != "$p0" && !strings.HasSuffix(a, "{}") {
+					o.FailAt(mz.ID+"#slot-1", s.Where(), "slot 1 of the zombie index receives %s, expected node 1's key or a blank key", a)
+				}
+				if b != "$p1" && !strings.HasSuffix(b, "{}") {
+					o.FailAt(mz.ID+"#slot-2", s.Where(), "slot 2 of the zombie index receives %s, expected node 2's key or a blank key", b)
+				}
+			}
+			pz := p.Func(gs + "processZombieUpdate")
+			nz := 0
+			for _, s := range pz.Assigns(an.LocalNamed("pubKey"), false) {
+				as := s.Node.(*ast.AssignStmt)
+				c := an.Text(as.Rhs[0])
+				for _, row := range []struct {
+					isNode1 bool
+					key     string
+				}{{true, "chanInfo.NodeKey1()"}, {false, "chanInfo.NodeKey2()"}} {
+					if ok, _ := pz.Guarded(s, an.Truth(an.LocalNamed("isNode1"), row.isNode1, "")); ok {
+						nz++
+						o.Site("processZombieUpdate: isNode1=%v -> %s", row.isNode1, c)
+						if c != row.key {
+							o.FailAt(pz.ID+"#key-for-direction", s.Where(), "a zombie update with isNode1=%v is checked against %s, expected %s", row.isNode1, c, row.key)
+						}
+					}
+				}
+			}
+			if nz != 2 {
+				o.FailAt(pz.ID+"#direction-keys", pz.Where(pz.Body.Pos()), "processZombieUpdate selects the signer key at %d direction cases, expected 2", nz)
+			}
+			for _, s := range pz.Assigns(an.LocalNamed("isNode1"), false) {
+				if c := an.Text(s.Node.(*ast.AssignStmt).Rhs[0]); c != "msg.ChannelFlags & lnwire.ChanUpdateDirection == 0" {
+					o.FailAt(pz.ID+"#direction", s.Where(), "isNode1 is %s", c)
+				}
+			}
+			ml := pz.Calls(an.CalleeNamed("MarkEdgeLive"), false)
+			if need(o, pz, "MarkEdgeLive", ml, 1) {
+				mustPass(o, pz, "VerifyChannelUpdateSignature", pz.Calls(an.CalleeIs("netann.VerifyChannelUpdateSignature"), false), an.OkErrNil, ml)
 			}
 			// key by direction, in every function that selects a key by the direction bit
 			for _, fn := range []string{gs + "handleChanUpdate", "graph.Builder.ApplyChannelUpdate"} {
